@@ -309,14 +309,31 @@ def _limits(col, rule="C10.R4"):
     q = "JacobianSolver.step"
     X = S.sattr("x")
     zeroed = {}
+
+    def trigger_conds(e):
+        """conditions of a zeroing store; for `for i in np.flatnonzero(M): step[i] = 0` those under which M[i] was set"""
+        cs = list(sx.conds(e.nid))
+        out_ = [(cs, e.target)]
+        for lp in sx.sym.loops(e.nid):
+            m_ = S.match(lp, ("call", ("attr", NP, S.V("f", lambda t: t in ("flatnonzero",))), (S.V("m"),), ())) or \
+                S.match(lp, ("sub", S.fcall(("attr", NP, "where"), S.V("m")), ("const", "0")))
+            if m_ is None:
+                continue
+            for e2 in sx.of_kind("store"):
+                if e2.value == ("const", "True") and e2.target[:1] == ("sub",) and e2.target[1] in S.alts(m_["m"]) + (m_["m"],):
+                    # the same store, re-indexed by the position at which the mask was set
+                    out_.append((list(sx.conds(e2.nid)), ("sub", e.target[1], e2.target[2])))
+        return out_
     for e in sx.of_kind("store"):
         if e.value == ("const", "0") and e.target[:1] == ("sub",):
-            for c0 in sx.conds(e.nid):      # innermost condition first: the test that triggers this zeroing
+          for conds_, tgt_ in trigger_conds(e):
+            e_ = e if tgt_ == e.target else type("E", (), {"target": tgt_, "nid": e.nid, "node": e.node, "value": e.value})()
+            for c0 in conds_:      # innermost condition first: the test that triggers this zeroing
                 parts = list(c0[2]) if (c0[:1] == ("bool",) and c0[1] == "or") else [c0]
                 hit = False
                 for c in parts:
                     if c[:1] == ("cmp",) and c[1] in ("<", ">", "<=", ">=") and c[2][:1] == ("op",) and c[2][1] == "-" and c[3][:1] == ("sub",) and c[3][2][:1] == ("const",):
-                        zeroed.setdefault(c[3][2][1], (c[1], c[2], c[3], e))
+                        zeroed.setdefault(c[3][2][1], (c[1], c[2], c[3], e_))
                         hit = True
                 if hit:
                     break
